@@ -180,6 +180,12 @@ func runC07(t *testing.T, c simrt.Chooser, o Opts) *Out {
 	if errBurst {
 		maxErr = sc.Requests // more errors than the 100-slot error channels
 	}
+	// zero exit delay: the caller cancels the instant completion is signalled; the errors reported
+	// until then (few enough to fit the error stream's buffer) must still all arrive
+	zeroDelay := p.pct("zerodelay", 15)
+	if zeroDelay && maxErr > 14 {
+		maxErr = 14
+	}
 	sc.ReqErrAt = pickPositions(p, "reqerr", sc.Requests, maxErr)
 	sc.BuildErrAt = pickPositions(p, "builderr", sc.Requests, maxErr)
 	sc.GenStartErr = p.pct("starterr", 4)
@@ -190,7 +196,10 @@ func runC07(t *testing.T, c simrt.Chooser, o Opts) *Out {
 	sc.WriteErrAt = pickPositions(p, "writeerr", sc.Requests+1, maxErr)
 	sc.ReaderErrs = p.pick("readererrs", 0, 0, 1, 3, 120)
 	delay := p.dur("delay", time.Millisecond, 300*time.Millisecond)
-	if min := time.Duration(sc.ReaderErrs)*5*time.Millisecond + time.Millisecond; delay < min {
+	if zeroDelay {
+		sc.ReaderErrs, delay = 0, 0
+	}
+	if min := time.Duration(sc.ReaderErrs)*5*time.Millisecond + time.Millisecond; delay < min && !zeroDelay {
 		delay = min // all injected read errors (5 ms back-off each) happen before the cancel
 	}
 	sc.ExitDelay = delay.String()
@@ -250,7 +259,11 @@ func runC07(t *testing.T, c simrt.Chooser, o Opts) *Out {
 		simrt.Recv("c07.done", done)
 		doneObserved = true
 		pendingAtDone = wr.inflight
-		simrt.Sleep("c07.exitdelay", delay)
+		if delay > 0 {
+			simrt.Sleep("c07.exitdelay", delay)
+		} else {
+			simrt.Probe("zero-exit-delay")
+		}
 		simrt.Cancel("c07.cancel", cancel)
 		simrt.Recv("c07.drained", drained)
 		if sc.CancelStep > 0 {
